@@ -219,6 +219,19 @@ CHECKS = {
             "the inverse tail integral inverts the tail integral both ways; a fresh model returns the same values.",
             "'Split at zero' is approximated by splits at +-delta because tail integrals are defined on R minus {0}; "
             "joint-density integration (dblquad) for Clayton is part of C01's copula sub-check."),
+    "C17": ("3/C17",
+            "model-based testing over operation lists on one Product object (evaluate path i / switch representation) "
+            "against fresh objects; identity-vs-log metamorphic relation for every underlying; static payoff identities",
+            "Exploration: for ten product kinds (four barrier types, vanilla, forward, digital, call spread, Asian "
+            "call, CDS on a default time) every evaluation inside a generated history must equal the value a fresh "
+            "product gives for that path in the current representation and must repeat; every underlying class must "
+            "give the same value on (times, S, J) in identity representation and on the logarithms in log "
+            "representation, equal to a harness definition (time-weighted average within [min,max], performances, "
+            "default time = first jump below the threshold by a reference scan, n-th default non-decreasing in n); "
+            "call-put=forward, call spread and butterfly = call combinations, digital call+put=1, KI+KO=vanilla with "
+            "fresh and reused objects, vector strikes, notional linear.",
+            "Barrier products are kept in identity representation (the barrier is compared with the raw path); "
+            "LookBack raises by design and is excluded."),
 }
 
 NOT_YET = "check not built yet in this session; will be claimed when its module exists"
